@@ -59,6 +59,11 @@ def one(seed):
             res["tests_pass_with_change"] = rc == 0
             res["tests_tail"] = out.strip().splitlines()[-1] if out.strip() else ""
             rc1, o1 = sh(f"{PY} {demo}", cwd=scratch, env={"PYTHONPATH": f"{scratch}/src"}, timeout=600)
+            for _again in range(2):
+                if rc1 != 0:
+                    break
+                # a demo whose outcome depends on set/dict order (hash seed) may pass by chance: it demonstrates the break if it fails in any run
+                rc1, o1 = sh(f"{PY} {demo}", cwd=scratch, env={"PYTHONPATH": f"{scratch}/src"}, timeout=600)
             rc0, o0 = sh(f"{PY} {demo}", cwd=clean, env={"PYTHONPATH": f"{clean}/src"}, timeout=600)
             res["demo_fails_with_change"] = rc1 != 0
             res["demo_passes_without_change"] = rc0 == 0
